@@ -229,7 +229,10 @@ def run_case(case):
     obs = {}
     checks = 0
     try:
-        y = sp.nufft(x, coord, oversamp=ov, width=w)
+        if sum(case["rs"]) % 4 == 1:
+            y = sp.nufft(x, coord, ov, w)          # documented signature, positional
+        else:
+            y = sp.nufft(x, coord, oversamp=ov, width=w)
     except Exception as e:
         return violated(sig, "nufft raised %s: %s" % (type(e).__name__, str(e)[:200]), wit,
                         mech="raised")
@@ -299,7 +302,10 @@ def run_case(case):
     # exact adjointness
     cdt = np.complex64 if single else np.complex128
     yy = crandn(rng, y.shape, cdt) * cdt(mag)
-    xa = sp.nufft_adjoint(yy, coord, batch + grid, oversamp=ov, width=w)
+    if sum(case["rs"]) % 4 == 1:
+        xa = sp.nufft_adjoint(yy, coord, batch + grid, ov, w)
+    else:
+        xa = sp.nufft_adjoint(yy, coord, batch + grid, oversamp=ov, width=w)
     xg = crandn(rng, batch + grid, cdt)
     yg = sp.nufft(xg, coord, oversamp=ov, width=w)
     lhs, rhs = inner(yg, yy), inner(xg, xa)
